@@ -305,16 +305,32 @@ pub fn run(o: &Opts) -> i32 {
             out.emit(&dec_event(tb)); // the intact long text must decode to the input
             let positions: Vec<usize> = [0usize, 1, 511, 1023, 1024, 1025, 2047, 2048, tb.len() / 2, tb.len() - 5, tb.len() - 1]
                 .iter().cloned().filter(|p| *p < tb.len() && tb[*p] != b'=').collect();
-            for c in 0u8..128 {
-                let ch = c as char;
-                if ch.is_ascii_alphanumeric() || ch == '+' || ch == '/' || ch == '=' {
-                    continue;
-                }
-                for p in positions.iter() {
-                    let mut m = tb.to_vec();
-                    m[*p] = c;
-                    out.emit(&dec_event(&m));
-                }
+            // the decoder is quadratic in the text length: the substitutions are decoded by several threads, emitted in order
+            let chars: Vec<u8> = (0u8..128).filter(|c| { let ch = *c as char; !(ch.is_ascii_alphanumeric() || ch == '+' || ch == '/' || ch == '=') }).collect();
+            let nthreads = (o.num("threads", 12) as usize).max(1);
+            let tbv = std::sync::Arc::new(tb.to_vec());
+            let posv = std::sync::Arc::new(positions.clone());
+            let handles: Vec<_> = (0..nthreads)
+                .map(|ti| {
+                    let (tbv, posv) = (tbv.clone(), posv.clone());
+                    let mine: Vec<u8> = chars.iter().cloned().enumerate().filter(|(i, _)| i % nthreads == ti).map(|(_, c)| c).collect();
+                    std::thread::spawn(move || {
+                        let mut evs = vec![];
+                        for c in mine {
+                            for p in posv.iter() {
+                                let mut m = tbv.to_vec();
+                                m[*p] = c;
+                                evs.push((c, dec_event(&m)));
+                            }
+                        }
+                        evs
+                    })
+                })
+                .collect();
+            let mut all: Vec<(u8, Value)> = handles.into_iter().flat_map(|h| h.join().unwrap_or_default()).collect();
+            all.sort_by_key(|(c, _)| *c);
+            for (_, ev) in all {
+                out.emit(&ev);
             }
         }
     }
